@@ -7,7 +7,7 @@
 EXTENDS Cache, Json, IOUtils, TLC
 VARIABLE l
 Trace == ndJsonDeserialize(IOEnv.TRACE)
-tvars == <<have, trk, hub, hubnew, staged, listed, indexed, fresh, size, res, l>>
+tvars == <<have, trk, hub, hubnew, staged, listed, indexed, fresh, size, made, res, l>>
 ev == Trace[l]
 IsEv(n) == l <= Len(Trace) /\ ev.ev = n /\ l' = l + 1
 AsSet(s) == {s[i] : i \in DOMAIN s}
@@ -24,14 +24,14 @@ Observed(r) ==
 TraceInit == Init /\ l = 1
 Reset == IsEv("Reset") /\ have' = [r \in Replica |-> {}] /\ trk' = [r \in Replica |-> {}] /\ hub' = {}
          /\ hubnew' = [r \in Replica |-> {}] /\ staged' = [r \in Replica |-> {}] /\ listed' = [r \in Replica |-> {}]
-         /\ indexed' = [r \in Replica |-> {}] /\ fresh' = [r \in Replica |-> {}] /\ size' = [r \in Replica |-> MaxSize] /\ res' = "none"
+         /\ indexed' = [r \in Replica |-> {}] /\ fresh' = [r \in Replica |-> {}] /\ size' = [r \in Replica |-> MaxSize] /\ made' = 0 /\ res' = "none"
 TNew == IsEv("New") /\ ev.err = "" /\ CNew(ev.r) /\ ev.b = NextBug /\ Observed(ev.r)
 TEdit == IsEv("Edit") /\ ev.err = "" /\ CEdit(ev.r, ev.b) /\ Observed(ev.r)
 TCommit == IsEv("Commit") /\ ev.err = "" /\ CCommit(ev.r, ev.b) /\ Observed(ev.r)
 TEditCommit == /\ IsEv("EditCommit") /\ ev.err = "" /\ ev.b \in have[ev.r]
                /\ fresh' = [fresh EXCEPT ![ev.r] = @ \cup {ev.b}] /\ res' = "commit"
                /\ staged' = [staged EXCEPT ![ev.r] = @ \ {ev.b}]
-               /\ UNCHANGED <<have, trk, hub, hubnew, listed, indexed, size>> /\ Observed(ev.r)
+               /\ UNCHANGED <<have, trk, hub, hubnew, listed, indexed, size, made>> /\ Observed(ev.r)
 TPush == IsEv("Push") /\ ev.err = "" /\ CPush(ev.r) /\ Observed(ev.r)
 TPushRejected == IsEv("PushRejected") /\ UNCHANGED vars /\ Observed(ev.r)
 TPull == IsEv("Pull") /\ ev.err = "" /\ CPull(ev.r) /\ Observed(ev.r)
@@ -40,7 +40,10 @@ TResolveAll == IsEv("ResolveAll") /\ ev.err = "" /\ CResolveAll(ev.r, ev.n) /\ O
 TReopen == IsEv("Reopen") /\ ev.err = "" /\ CReopen(ev.r) /\ Observed(ev.r)
 (* identity changes do not touch bugs *)
 TIdent == IsEv("MutateIdentity") /\ ev.err = "" /\ UNCHANGED vars /\ Observed(ev.r)
-TraceNext == TPushRejected \/ Reset \/ TNew \/ TEdit \/ TCommit \/ TEditCommit \/ TPush \/ TPull \/ TRemove \/ TResolveAll \/ TReopen \/ TIdent
+(* a call that names a bug the repository does not have is refused and changes nothing *)
+TNoSuchBug == /\ l <= Len(Trace) /\ ev.ev \in {"Edit", "EditCommit", "Remove"} /\ l' = l + 1
+              /\ ev.err # "" /\ ev.b \notin have[ev.r] /\ UNCHANGED vars /\ Observed(ev.r)
+TraceNext == TNoSuchBug \/ TPushRejected \/ Reset \/ TNew \/ TEdit \/ TCommit \/ TEditCommit \/ TPush \/ TPull \/ TRemove \/ TResolveAll \/ TReopen \/ TIdent
 TraceSpec == TraceInit /\ [][TraceNext]_tvars
 TraceAccepted == TLCGet("stats").diameter - 1 = Len(Trace)
 =============================================================================
